@@ -349,6 +349,13 @@ class MiniEval:
         else:
             raise Unsupported(f'assignment target {type(t).__name__}')
 
+    def _builtin_method(self, node, recv, name, args, kwargs):
+        """a method of a builtin value, run by the host; what it raises for these operands the interpreted program raises"""
+        try:
+            return getattr(recv, name)(*args, **kwargs)
+        except (TypeError, ValueError, IndexError, KeyError) as ex:
+            raise Raised(type(ex).__name__, node) from None
+
     # ------------------------------------------------------------ expressions
     def truth(self, v: Any) -> bool:
         return bool(v)
@@ -578,7 +585,7 @@ class MiniEval:
             if f.id == 'isinstance' and len(args) == 2:
                 return self.isinstance_(args[0], args[1])
             if f.id in ('len', 'bool', 'str', 'tuple', 'list', 'set', 'frozenset', 'dict', 'sorted', 'any', 'all',
-                        'callable', 'issubclass', 'min', 'max', 'repr', 'int', 'float', 'enumerate', 'zip', 'range', 'reversed'):
+                        'callable', 'issubclass', 'min', 'max', 'repr', 'int', 'float', 'enumerate', 'zip', 'range', 'reversed', 'sum', 'abs', 'ord', 'chr', 'divmod'):
                 import builtins
                 if 'key' in kwargs and f.id in ('sorted', 'min', 'max'):
                     kwargs = {**kwargs, 'key': self.as_callable(kwargs['key'])}
@@ -604,19 +611,19 @@ class MiniEval:
                 if r is not NotImplemented:
                     return r
             if isinstance(recv, str) and f.attr in SAFE_STR_METHODS:
-                return getattr(recv, f.attr)(*args, **kwargs)
+                return self._builtin_method(e, recv, f.attr, args, kwargs)
             if isinstance(recv, (dict, _MPT)) and f.attr in ('items', 'keys', 'values', 'get'):
-                return getattr(recv, f.attr)(*args, **kwargs)
+                return self._builtin_method(e, recv, f.attr, args, kwargs)
             if isinstance(recv, (set, frozenset)) and f.attr in ('union', 'intersection', 'difference', 'issubset', 'copy'):
-                return getattr(recv, f.attr)(*args, **kwargs)
+                return self._builtin_method(e, recv, f.attr, args, kwargs)
             if type(recv) is set and f.attr in ('add', 'discard', 'remove', 'update', 'clear', 'pop'):
-                return getattr(recv, f.attr)(*args, **kwargs)
+                return self._builtin_method(e, recv, f.attr, args, kwargs)
             if isinstance(recv, list) and f.attr in ('append', 'extend', 'pop', 'insert', 'copy', 'index', 'count', 'clear', 'sort', 'reverse'):
-                return getattr(recv, f.attr)(*args, **kwargs)
+                return self._builtin_method(e, recv, f.attr, args, kwargs)
             if type(recv) is dict and f.attr in ('setdefault', 'update', 'pop', 'copy', 'clear'):
-                return getattr(recv, f.attr)(*args, **kwargs)
+                return self._builtin_method(e, recv, f.attr, args, kwargs)
             if isinstance(recv, tuple) and f.attr in ('index', 'count'):
-                return getattr(recv, f.attr)(*args, **kwargs)
+                return self._builtin_method(e, recv, f.attr, args, kwargs)
             if recv is dict and f.attr == 'fromkeys':
                 return dict.fromkeys(*args)
             raise Unsupported(f'method call .{f.attr} on {type(recv).__name__}')
